@@ -151,6 +151,25 @@ fn main() {
         return;
     }
     #[cfg(any(feature = "libm", feature = "mm", feature = "std"))]
+    if a[3] == "unit" || a[3] == "unit-thorough" {
+        // unit circle / sphere samples under this build's float backend (normalisation goes through its
+        // reciprocal square root), as "normb" records of TV_Rand (C19)
+        use re::math::rand::{Distrib, UnitCircle, UnitSphere, Xorshift64};
+        let mut rng = Rng(seed ^ 0x0C19);
+        let n = if a[3] == "unit" { 3_000 } else { 100_000 };
+        for i in 0..n {
+            let st = rng.next() | 1;
+            let dist = if i % 2 == 0 { "circle" } else { "sphere" };
+            let r = guard(|| {
+                let g = &mut Xorshift64(st);
+                if i % 2 == 0 { UnitCircle.sample(g).len_sqr() } else { UnitSphere.sample(g).len_sqr() }
+            });
+            let (p, n2) = match r { Some(v) => (0, (v as f64 * 1048576.0).round().min(1e9) as i64), None => (1, 0) };
+            writeln!(out, "{}", json!({"k": format!("{be}-u{i}"), "op": "normb", "be": be, "dist": dist, "n2": n2, "panic": p})).unwrap();
+        }
+        return;
+    }
+    #[cfg(any(feature = "libm", feature = "mm", feature = "std"))]
     if a[3] == "fpcam" || a[3] == "fpcam-thorough" {
         // the first-person camera's view transform under this build's float backend, as "rigid" records of TV_Proj (C08)
         use re::math::vec::vec3;
@@ -301,6 +320,15 @@ fn main() {
             let (p, rv) = match r { Some(v) => (0, v), None => (1, 0.0) };
             writeln!(out, "{}", json!({"op": "f1", "be": be, "which": "sel", "fn": "atan2", "x": rec(ay), "y": rec(rv), "ystd": rec(ay.atan2(ax)),
                 "ky": key(rv), "kstd": key(ay.atan2(ax)), "sy": sc(rv), "sstd": sc(ay.atan2(ax)), "sx": sc(ay), "panic": p})).unwrap();
+            // ... and the same direction given by a very short vector (1e-20 .. 1e-19: the squares are subnormal)
+            if rng.unit() < 0.2 {
+                let k = 2f32.powi(-64 - (rng.unit() * 3.0) as i32);
+                let (ty, tx) = (ay * k, ax * k);
+                let r = guard(|| ff::atan2(ty, tx));
+                let (p, rv) = match r { Some(v) => (0, v), None => (1, 0.0) };
+                writeln!(out, "{}", json!({"op": "f1", "be": be, "which": "sel", "fn": "atan2", "x": rec(ty), "y": rec(rv), "ystd": rec(ty.atan2(tx)),
+                    "ky": key(rv), "kstd": key(ty.atan2(tx)), "sy": sc(rv), "sstd": sc(ty.atan2(tx)), "sx": sc(ty), "panic": p})).unwrap();
+            }
             let base = (0.1 + u * 10.0) as f32;
             let ex = ((rng.unit() - 0.5) * 6.0) as f32;
             let r = guard(|| ff::powf(base, ex));
